@@ -42,7 +42,7 @@ pub fn check_total(shape: &Shape, input: &[u8], adversarial: bool, l: &mut Local
             }
             match (&r, &reference) {
                 (Ok((Dyn(v), rp, rl)), Ok(d)) => {
-                    if *v != d.value || *rl != input.len() - d.consumed || *rp != base + d.consumed {
+                    if *v != d.value || *rl != input.len() - d.consumed || (*rl > 0 && *rp != base + d.consumed) {
                         return Err(fail("total", "accepted input decoded differently from the reference (value / remainder)", cj()));
                     }
                     if log.borrows.len() != d.payload_spans.len() {
